@@ -88,7 +88,7 @@ def run(ctx):
         ctx.cov["design_step_as_coded_restart_violates_RestartSucceeds"] = True
         if not ctx.quick:
             vlib.tlc_mc(ctx, "SnowVMRestart_MC", "SnowVMRestart_MC_intended.cfg", label="intended")
-    scenarios = ctx.pick(22, 90)
+    scenarios = ctx.pick(20, 90)
     rc, out = vlib.go_driver(ctx, PKG, "^TestVerifCrashRecord$", files=FILES, timeout=1500,
                              env={"VERIF_SCENARIOS": scenarios, "VERIF_BLOCKS": ctx.pick(5, 8), "VERIF_PAR": 8})
     if rc != 0:
